@@ -98,7 +98,7 @@ pub fn judge_bytes(bytes: &[u8], cfg: Option<&BuildCfg>) -> Result<Vec<(String, 
         }
     }
     // file digests against the configuration (not when the sources were rewritten under the builder)
-    if let Some(cfg) = cfg.filter(|c| !c.disturb_sources) {
+    if let Some(cfg) = cfg.filter(|c| c.disturb_sources == 0) {
         let fl = decode_files(bytes, &p.hdr)?;
         for f in &cfg.files {
             // a path given more than once: the builder keeps one of the contents (judged above)
@@ -226,7 +226,7 @@ fn ladder_cfg(rng: &mut Rng, k: usize) -> BuildCfg {
     }
     cfg.compression = ladder()[k].clone();
     // every fourth ladder package: the source files change between with_file() and build()
-    cfg.disturb_sources = k % 4 == 1;
+    cfg.disturb_sources = if k % 4 == 1 { 1 + (k / 4 % 3) as u8 } else { 0 };
     cfg
 }
 
@@ -299,7 +299,7 @@ fn run(ctx: &Ctx, rep: &Report) {
             }
             Err(CorpusErr::Panic(site, msg)) => rep.violation(format!("panic:{site}"), format!("emitting operation panics: {msg}"), w("build"), 0),
             // a builder that reads its sources late may refuse files that changed or vanished
-            Err(CorpusErr::Err(_, _)) if cfg.disturb_sources => *local.entry("disturbed_sources.build_error(allowed)".into()).or_insert(0) += 1,
+            Err(CorpusErr::Err(_, _)) if cfg.disturb_sources != 0 => *local.entry("disturbed_sources.build_error(allowed)".into()).or_insert(0) += 1,
             Err(CorpusErr::Err(op, msg)) => rep.violation(format!("emit-error:{op}:{}", crate::util::par::normalize_msg(&msg)), format!("{op} fails on a valid configuration: {msg}"), w("build"), 0),
         }
         rep.counts(&local);
